@@ -356,5 +356,37 @@ def r11_7(ctx):
     (ctx.bad(construct, f"`{ast.unparse(rep[0])}` removes the prefix text wherever it occurs: names containing it again (…_SDKCONFIG_…, …MENUCONFIG_…) are stored mangled "
              "and assignments through them are not resolved", g.loc(rep[0])) if rep else ctx.ok(construct, g.loc()))
 
+def r11_8(ctx):
+    """R11.8 the deprecated block the tool writes can be read back: an alias of a number option without a value is written as
+    `CONFIG_OLD=`, so the value of a block entry can be empty - _create_new_deprecated_symbol never takes `val[0]` / `val[-1]`
+    of it unguarded (slices are fine). IndexError there made load_config(load_deprecated=True) fail on the tool's own file
+    (fixed defect 5.48)."""
+    from .common import index_of_text_guarded
+    index_of_text_guarded(ctx, f"{CORE}:Kconfig._load_config.<locals>._create_new_deprecated_symbol", ["val"], "the tool's own sdkconfig cannot be loaded with load_deprecated")
+    ctx.ok("_create_new_deprecated_symbol/constant subscripts of the entry's value examined", "", nontrivial=False)
+
+
+def r11_9(ctx):
+    """R11.9 a deprecated string entry is read the way it was written: the alias lines of the deprecated block are written through
+    _escape() (C07 R07.10b), so wherever _create_new_deprecated_symbol cuts the quotes off a block value (`val[1:-1]`) the result goes
+    through unescape() - otherwise the synthetic symbol of an alias differs from its replacement for every value with a quote or a
+    backslash (fixed defect 5.49)."""
+    repo = ctx.repo
+    f = repo.func(f"{CORE}:Kconfig._load_config.<locals>._create_new_deprecated_symbol")
+    ctx.analysed(f.qual)
+    cuts = [n for n in ast.walk(f.node) if isinstance(n, ast.Subscript) and isinstance(n.slice, ast.Slice) and ast.unparse(n.slice) == "1:-1"
+            and isinstance(n.ctx, ast.Load)]
+    construct = "_create_new_deprecated_symbol/a quoted block value is unescaped"
+    if not cuts:
+        calls = [n for n in ast.walk(f.node) if isinstance(n, ast.Call) and ast.unparse(n.func) in ("unescape", "_conf_string_match")]
+        (ctx.ok(construct, f.loc(calls[0])) if calls else ctx.bad(construct, "the quotes of a block value are no longer removed / the value is not unescaped", f.loc()))
+        return
+    for c in cuts:
+        par = repo.parent(c)
+        ok = isinstance(par, ast.Call) and ast.unparse(par.func) == "unescape"
+        (ctx.ok(construct, f.loc(c)) if ok else
+         ctx.bad(construct, f"`{ast.unparse(c)}` is used without unescape(): the escapes _escape() wrote stay in the synthetic symbol's value", f.loc(c)))
+
+
 def rules():
-    return [("R11.7", r11_7, 2), ("R11.6", r11_6, 6), ("R11.1", r11_1, 7), ("R11.2", r11_2, 2), ("R11.3", r11_3, 4), ("R11.4", r11_4, 6), ("R11.5", r11_5, 3)]
+    return [("R11.9", r11_9, 1), ("R11.8", r11_8, 1), ("R11.7", r11_7, 2), ("R11.6", r11_6, 6), ("R11.1", r11_1, 7), ("R11.2", r11_2, 2), ("R11.3", r11_3, 4), ("R11.4", r11_4, 6), ("R11.5", r11_5, 3)]
